@@ -53,9 +53,11 @@ func cmdVerify(argv []string) {
 	dump := fs.String("dump", "", "dump the SMT query of the named obligation")
 	var overlays multiFlag
 	fs.Var(&overlays, "overlay", "repo-file=replacement-file (verify a modified source without touching the repo)")
+	gnoDir := fs.String("gno", "", "verify a .gno package (directory under the repo) through the Gno front end")
 	fs.Parse(argv)
 	t0 := time.Now()
 	e := newEngine(*repo)
+	pats := fs.Args()
 	for _, ov := range overlays {
 		kv := strings.SplitN(ov, "=", 2)
 		b, err := os.ReadFile(kv[1])
@@ -68,7 +70,20 @@ func cmdVerify(argv []string) {
 		}
 		e.overlay[kv[0]] = b
 	}
-	if err := e.load(fs.Args()); err != nil {
+	if *gnoDir != "" {
+		tmp, pat, err := prepareGno(*repo, GnoTarget{PkgDir: *gnoDir}, e.overlay)
+		if tmp != "" && !*keep {
+			defer os.RemoveAll(tmp)
+		}
+		if err != nil {
+			fmt.Fprintln(os.Stderr, "gno front end:", err)
+			os.Exit(2)
+		}
+		e.repo = tmp
+		e.overlay = nil
+		pats = []string{pat}
+	}
+	if err := e.load(pats); err != nil {
 		fmt.Fprintln(os.Stderr, "load:", err)
 		os.Exit(2)
 	}
